@@ -1,11 +1,12 @@
 import Ccp.Proofs.Intf
+import Ccp.Proofs.IntfX
 /-!
 # C15 — interface names round-trip and sort numerically; interface ranges expand exactly
 
 Property theorems only; helper lemmas live in `Ccp.Proofs.Intf`.
 -/
 namespace Ccp.C15
-open Ccp.Intf Ccp.Py Ccp.Range
+open Ccp.Intf Ccp.Py Ccp.Range Ccp.IntfX
 
 /-! ## names -/
 
@@ -176,5 +177,160 @@ example : ((parseRange "Port-channel1-3,7".toList).toOption.map (fun d => d.map 
                   ("Port-channel".toList, 7)] := by decide
 example : ((plan "Port-channel1-3,7".toList).toOption.map (fun r => (r.2.1, r.2.2)))
           = some (Attr.port, [(some 1, some 3), (some 7, none)]) := by decide
+
+/-! ## further entry points: repr / name, rebuilding from the components, dictionaries, typed views -/
+
+/-- `repr(o)` is the rendering in angle brackets, `.name` is the rendering. -/
+theorem repr_is_name (d : Intf) :
+    reprOf d = (render d).map (fun s => "<CiscoIOSInterface ".toList ++ s ++ ['>']) := by
+  unfold reprOf; cases render d <;> rfl
+
+/-- **Rebuilding from the components**: for every accepted text `s`, all three ways to build an
+object from `o.as_dict()` — `CiscoIOSInterface(interface_dict=…)`, `CiscoIOSInterface(o)` and
+`o.from_dict(…)` — give exactly `o` again (all eight components, hence `==`, same name). -/
+theorem rebuild_from_components (s : Str) (d : Intf) (h : Intf.parse s = .ok d) :
+    fromDictCtor d = .ok d ∧ fromDictMethod d = d ∧ eq d d = true := by
+  have hc := parse_canon s d h
+  obtain ⟨pfx, sep, slot, card, port, sub, chan, cls⟩ := d
+  have hst : strip pfx = pfx := hc.pfxstrip
+  refine ⟨?_, by simp [fromDictMethod, hst], by simp [eq]⟩
+  rcases hc.shape with ⟨h1, h2, _⟩ | ⟨h1, _⟩
+  · simp only at h1 h2; subst h1; subst h2
+    simp [fromDictCtor, toRaw, updateInternalState, hst]
+  · simp only at h1
+    cases slot with
+    | none => simp at h1
+    | some sl => simp [fromDictCtor, toRaw, updateInternalState, hst]
+
+example : ((Intf.parse " Serial 4/1/2.9:5 point-to-point".toList).toOption.map
+    (fun d => ((fromDictCtor d).toOption == some d, fromDictMethod d == d))) = some (true, true) := by decide
+
+/-- Assigning a prefix over `[A-Za-z- ]` keeps the round trip: the edited object renders, and
+parsing the rendering gives the edited object. -/
+theorem set_prefix_roundtrip (s p : Str) (d : Intf) (h : Intf.parse s = .ok d)
+    (hp : ∀ c ∈ p, isPfxCh c = true) :
+    ∃ r, render (setPrefix d p) = .ok r ∧ Intf.parse r = .ok (setPrefix d p) := by
+  have hc := parse_canon s d h
+  exact canon_roundtrip _ ⟨fun c hcm => hp c (strip_mem p c hcm), strip_strip p, hc.shape, hc.cls⟩
+
+example : ((Intf.parse "Eth1/2".toList).toOption.map (fun d => render (setPrefix d " Gi \t".toList)))
+    = some (.ok "Gi1/2".toList) := by decide +kernel
+
+/-- `check_interface_dict` accepts exactly the dictionaries with eight keys, all of them known. -/
+theorem check_dict_spec (ks : List String) :
+    checkDict ks = .ok () ↔ ks.length = 8 ∧ ∀ k ∈ ks, k ∈ dictKeys := by
+  unfold checkDict
+  by_cases hl : ks.length = 8
+  · by_cases ha : ks.all (fun k => dictKeys.contains k) = true
+    · simp only [hl, ha, ne_eq, not_true_eq_false, if_false, if_true, true_and, true_iff]
+      intro k hk
+      have := List.all_eq_true.mp ha k hk
+      simpa using this
+    · simp only [hl, ha, ne_eq, not_true_eq_false, if_false, true_and]
+      constructor
+      · intro h; cases h
+      · intro h; exact absurd (List.all_eq_true.mpr (fun k hk => by simpa using h k hk)) ha
+  · simp [hl]
+
+/-- The constructor on a dictionary: with exactly the eight known keys (in any order) and the
+components of a parsed name it gives that object back; when a key other than `card` is missing it
+raises `KeyError`. -/
+theorem ctor_dict_spec (s : Str) (d : Intf) (h : Intf.parse s = .ok d) (ks : List String) :
+    (ks.length = 8 → (∀ k ∈ dictKeys, k ∈ ks) → (∀ k ∈ ks, k ∈ dictKeys) → ctorDict d ks = .ok d) ∧
+    (∀ k ∈ dictKeys, k ≠ "card" → k ∉ ks → ctorDict d ks = .error .keyError) := by
+  constructor
+  · intro hl hall hknown
+    have h1 : (dictKeys.filter (fun k => d.slot.isSome || k != "card")).all (fun k => ks.contains k) = true := by
+      apply List.all_eq_true.mpr
+      intro k hk
+      have := hall k (List.mem_filter.mp hk).1
+      simpa using this
+    have h2 := (check_dict_spec ks).mpr ⟨hl, hknown⟩
+    unfold ctorDict
+    rw [if_pos h1, (rebuild_from_components s d h).1, h2]
+  · intro k hk hne hnot
+    have h1 : ¬ (dictKeys.filter (fun k => d.slot.isSome || k != "card")).all (fun k => ks.contains k) = true := by
+      intro hall
+      have hm : k ∈ dictKeys.filter (fun k => d.slot.isSome || k != "card") :=
+        List.mem_filter.mpr ⟨hk, by simp [hne]⟩
+      have := List.all_eq_true.mp hall k hm
+      exact hnot (by simpa using this)
+    unfold ctorDict
+    rw [if_neg h1]
+
+example : checkDict dictKeys = .ok () ∧ checkDict (dictKeys.drop 1) = .error (.base .valueError) ∧
+    checkDict ("extra" :: dictKeys.drop 1) = .error .keyError := by decide
+
+/-- **Typed views of an interface range.** Under the hypotheses of `range_expands` (accepted
+text, every part carries the iterated component), for every `reverse` flag the constructor
+holds the same members, `as_list(result_type=None | str)` lists them — as objects or as names —
+in ascending order, in descending order exactly under `reverse=True`, and
+`as_set(result_type=None | str)` holds the same members. -/
+theorem range_typed_views (text : Str) (d : List Intf) (h : parseRange text = .ok d) (hne : text ≠ []) :
+    ∃ b a ps, plan text = .ok (b, a, ps) ∧
+      ∀ ns : List Nat, ps.flatMap expandBounds = ns.map some → ∀ rev : Bool,
+        IntfX.construct rev text = .ok ⟨d, rev⟩ ∧
+        asListT ⟨d, rev⟩ .none = .ok ⟨true, false, if rev then d.reverse else d⟩ ∧
+        asListT ⟨d, rev⟩ .str = .ok ⟨true, true, if rev then d.reverse else d⟩ ∧
+        asSetT ⟨d, rev⟩ .none = .ok ⟨false, false, d⟩ ∧
+        asSetT ⟨d, rev⟩ .str = .ok ⟨false, true, d⟩ ∧
+        d.Pairwise (fun x y => lt x y = .ok true) ∧
+        d.reverse.Pairwise (fun x y => gt x y = .ok true) := by
+  obtain ⟨b, a, ps, hplan, _, hall⟩ := range_expands text d h hne
+  refine ⟨b, a, ps, hplan, ?_⟩
+  intro ns hns rev
+  obtain ⟨_, hpw, _, hl, _⟩ := hall ns hns
+  have hs : sortedMembers d = .ok d := hl
+  have hord : ordered ⟨d, rev⟩ = .ok (if rev then d.reverse else d) := by
+    simp [ordered, hs]
+  refine ⟨by simp [IntfX.construct, h], ?_, ?_, rfl, rfl, hpw, ?_⟩
+  · simp [asListT, hord]
+  · simp [asListT, hord]
+  · exact List.pairwise_reverse.mpr hpw
+
+example : ((IntfX.construct true "Eth1/1-3,7".toList).toOption.bind
+    (fun s => match asListT s .str with
+      | .ok v => some (v.isList, v.asNames, v.items.map (fun i => i.port))
+      | .error _ => none)) = some (true, true, [7, 3, 2, 1]) := by decide
+
+/-- The views never change the range; the casts that make no sense for an interface are refused
+on a non-empty range (`as_list` turns every failure into `ValueError`, `as_set` lets the
+`TypeError` through). -/
+theorem range_bad_casts (s : RSt) (hne : s.data ≠ []) (hs : sortedMembers s.data = .ok s.data) :
+    asListT s .int = .error (.base .valueError) ∧ asListT s .float = .error (.base .valueError) ∧
+    asListT s .inst = .error (.base .valueError) ∧ asListT s .bad = .error (.base .valueError) ∧
+    asSetT s .int = .error (.base .typeError) ∧ asSetT s .float = .error (.base .typeError) ∧
+    asSetT s .inst = .error (.base .typeError) ∧ asSetT s .bad = .error (.base .valueError) := by
+  have hr : (if s.rev then s.data.reverse else s.data) ≠ [] := by
+    split <;> simp [hne]
+  simp [asListT, asSetT, ordered, hs, hne, hr]
+
+example : (∃ d, parseRange "Eth1/1-3".toList = .ok d ∧ d ≠ [] ∧ sortedMembers d = .ok d) := by
+  refine ⟨_, rfl, by decide, by decide⟩
+
+/-! ## `str()`, `repr()`, `obj[k]`, `==`, `obj.data` of a range; `reverse` is invisible to them -/
+
+theorem listEq_refl (d : List Intf) : listEq d d = true := by
+  induction d with
+  | nil => rfl
+  | cons a d ih => simp [listEq, ih, eq]
+
+/-- The further readers of a range are functions of the data alone (`reverse` does not matter,
+and no new state is produced): a range that has only been read is `==` to a freshly parsed one,
+`obj.data` is the member list that iteration shows, `obj[k]` is its `k`-th member and raises
+`IndexError` from `len` on. -/
+theorem range_further_readers (rt : Str) (d : List Intf) (r1 r2 : Bool) (x : RRead) (k : Nat) :
+    readR rt d ⟨d, r1⟩ x = readR rt d ⟨d, r2⟩ x ∧
+    readR rt d ⟨d, r1⟩ .eqFresh = .ok (.bool true) ∧
+    readR rt d ⟨d, r1⟩ .data = .ok (.members (iter d).2) ∧
+    (∀ h : k < d.length, readR rt d ⟨d, r1⟩ (.idx k) = .ok (.member d[k])) ∧
+    (d.length ≤ k → readR rt d ⟨d, r1⟩ (.idx k) = .error .indexError) := by
+  refine ⟨by cases x <;> rfl, by simp [readR, listEq_refl], rfl, ?_, ?_⟩
+  · intro h; simp [readR, List.getElem?_eq_getElem h]
+  · intro h; simp [readR, List.getElem?_eq_none h]
+
+example : ((IntfX.construct true "Eth1/1-2".toList).toOption.map (fun s =>
+    (readR "None".toList s.data s .str, readR "None".toList s.data s .eqFresh, readR "None".toList s.data s (.idx 2)))) =
+    some (.ok (.text "[Eth1/1, Eth1/2]".toList), .ok (.bool true), .error .indexError) := by decide +kernel
 
 end Ccp.C15
